@@ -698,9 +698,9 @@ func (cc *compileCase) argv() []string {
 		pre = "{SB}/"
 	}
 	if cc.long {
-		argv = append(argv, "--file", pre+"in.dsl")
+		argv = append(argv, "--file", "in.dsl")
 	} else {
-		argv = append(argv, "-f", pre+"in.dsl")
+		argv = append(argv, "-f", "in.dsl")
 	}
 	for _, t := range cc.targets {
 		if cc.long {
